@@ -57,6 +57,8 @@ class SetTypes:
                         if isinstance(n, ast.Assign):
                             for t in n.targets:
                                 if isinstance(t, ast.Attribute) and isinstance(t.value, ast.Name) and t.value.id == "self":
+                                    if isinstance(n.value, ast.Constant) and n.value.value is None:
+                                        continue  # `self.x = None` (reset / not yet known) does not change what x holds when it is iterated
                                     cand.setdefault(t.attr, []).append(self.is_set(n.value, loc, q))
                         elif isinstance(n, ast.AnnAssign) and n.value is not None:
                             t = n.target
